@@ -10,9 +10,11 @@ import lib
 from props import fsx
 
 ID = 'C13'
-GEN_FILES = ['T_file_proto', 'T_build_do']
+GEN_FILES = ['T_file_proto', 'T_build_do',
+             # source pins of the hand-modelled modules (gen/kernels_pins.py)
+             'T_pins_build', 'T_pins_file', 'T_pins_p8', 'T_pins_p8png', 'T_pins_game', 'T_pins_tool']
 COQ_PROPERTY = 'theories/Properties/C13.vo'
-COQ_EXTRA = []
+COQ_EXTRA = ['theories/Proofs/BuildPins.vo', 'theories/Proofs/FilePins.vo', 'theories/Proofs/P8Pins.vo', 'theories/Proofs/P8PngPins.vo', 'theories/Proofs/GamePins.vo', 'theories/Proofs/ToolPins.vo']
 MODEL = ('ExC13', 'c13_main.ml')
 MONITOR = ('MonC13', 'c13_mon_main.ml')
 CASE_TIMEOUT = 120
